@@ -1,4 +1,4 @@
-// Counterexample found by mirsym/z3 for property C11, template project_two_states_direct: |x| { conde { x == p0, x == p1 }, project |x| { succ(x, q) } } with parameters [2, 1]: program panics: Cannot project non-Projection LTerm.
+// Counterexample found by mirsym/z3 for property C11, template project_two_states_direct: |x| { conde { x == p0, x == p1 }, project |x| { succ(x, q) } } with parameters [0, -3]: program panics: Cannot project non-Projection LTerm.
 // Replay: /verif/check C11 --replay /verif/replay/cases/C11-project_two_states_direct_panic.rs
 #![allow(unused_imports, unused_variables, unused_mut)]
 use proto_vulcan::prelude::*;
@@ -104,8 +104,8 @@ fn replay() {
 }
 
 fn body() {
-    let p0: T = LTerm::from(2);
-    let p1: T = LTerm::from(1);
+    let p0: T = LTerm::from(0);
+    let p1: T = LTerm::from(-3);
     let query = proto_vulcan_query!(|q| {
         |x| { conde { x == p0, x == p1 }, project |x| { succ(x, q) } }
     });
